@@ -1,11 +1,14 @@
 # C17 - concurrency: lock discipline (schedules themselves are outside this technique)
-CLAIMS = {'syncpool': 'XMLSynchronizedStringPool (real) + XMLMutexLock (real): every access to the shared table happens with the pool mutex held; never re-acquired; released on every exit; ids equal the unsynchronised semantics'}
+CLAIMS = {'doctype': 'DOMDocumentTypeImpl constructors / setPublicId / setSystemId / setInternalSubset on an owner-less doctype: every access to the shared hidden document (string arena, name pool, node allocator) under its mutex; released on exit; never re-acquired', 'syncpool': 'XMLSynchronizedStringPool (real) + XMLMutexLock (real): every access to the shared table happens with the pool mutex held; never re-acquired; released on every exit; ids equal the unsynchronised semantics'}
 ASSUMPTIONS = ['platform mutex primitives cut to a recorder', 'base XMLStringPool operations cut to stubs with arbitrary but consistent answers', 'lock discipline is a necessary condition for race freedom, not a proof of it']
 POOL = ['_ZN11xercesc_4_013XMLStringPool9addOrFindEPKDs', '_ZNK11xercesc_4_013XMLStringPool5getIdEPKDs', '_ZNK11xercesc_4_013XMLStringPool6existsEPKDs',
         '_ZNK11xercesc_4_013XMLStringPool13getValueForIdEj']
 HARNESSES = [
  dict(name='syncpool', entry='harness_syncpool', srcs=['C17/syncpool.cpp', 'C17/basepool.cpp'], tus=['util/SynchronizedStringPool.cpp', 'util/Mutexes.cpp'],
       cuts_everywhere=POOL, unwind=4, timeout=300),
+ dict(name='doctype', entry='harness_doctype', srcs=['C17/doctype.cpp', 'C17/doctypestubs.cpp'],
+      tus=['dom/impl/DOMDocumentTypeImpl.cpp', 'dom/impl/DOMNodeImpl.cpp', 'dom/impl/DOMParentNode.cpp', 'dom/impl/DOMChildNode.cpp', 'dom/impl/DOMNodeListImpl.cpp', 'util/Mutexes.cpp', 'util/XMLString.cpp'],
+      cuts_everywhere=['_ZN11xercesc_4_015DOMDocumentImpl15getPooledStringEPKDs', '_ZnwmPN11xercesc_4_011DOMDocumentE'], unwind=6, timeout=600, mem_gb=16),
 ]
 LEVEL_TEXT = ('Bounded (loop-free) symbolic execution of the real synchronised-pool and scope-lock code with the mutex primitives recorded: on EVERY path and for every combination of outcomes of the '
               'underlying table operations the shared table is touched only under its mutex, the mutex is not re-acquired, and it is released on every normal and exceptional exit. '
